@@ -74,6 +74,7 @@ const EDITS: &[&str] = &[
     "resign-other-key-keep-creator",
     "zero-merkle-root-field",
     "substitute-equal-amount-input",
+    "insert-zero-replacement-tx",
 ];
 
 #[tokio::main(flavor = "current_thread")]
@@ -94,7 +95,7 @@ async fn main() {
         let (gp, len) = *rng.pick(&[(20u64, 1usize), (20, 4), (8, 3), (5, 3)]);
         let ntx = rng.range(2, 5) as usize;
         for (e, edit) in EDITS.iter().enumerate() {
-            for first in ["edited-only", "original-first"] {
+            for first in ["edited-only", "original-first", "bootstrapped-node"] {
                 let mut wrng = Rng::new(args.seed * 7919 + wi as u64);
                 let mut w = build_world(gp, len, &mut wrng).await;
                 let ts = w.tip.timestamp + 150_000;
@@ -136,6 +137,15 @@ async fn main() {
                         b.sign(&other.1);
                     }
                     "zero-merkle-root-field" => b.merkle_root = [0; 32],
+                    "insert-zero-replacement-tx" => {
+                        // a validly signed transfer whose txs_replacements field is 0
+                        let sl = w.slips[ntx + 1].clone();
+                        let mut t = make_tx(&[sl.clone()], &[(w.node.pk, sl.amount)], &w.node.sk, ts + 99);
+                        t.txs_replacements = 0;
+                        t.sign(&w.node.sk);
+                        t.generate(&w.node.pk, 0, 0);
+                        b.transactions.insert(n0 + 1, t);
+                    }
                     "substitute-equal-amount-input" => {
                         // another unspent output of the same owner with the same amount and slip index:
                         // the signed bytes of an input omit block id and transaction ordinal
@@ -180,6 +190,31 @@ async fn main() {
                     "{{\"case\":{},\"edit\":\"{}\",\"order\":\"{}\",\"genesis_period\":{},\"chain_len\":{},\"txs\":{},\"same_hash_as_original\":{},\"content_changed\":{}}}",
                     case_no, edit, first, gp, len + 1, ntx, same_hash, content_changed
                 );
+                if first == "bootstrapped-node" {
+                    // a node that joined mid-chain: it holds only the last two blocks of the chain
+                    // (its first block is accepted without a parent) and cannot validate against
+                    // the ledger yet; the commitment of a block to its transactions must hold anyway
+                    if len < 2 {
+                        continue;
+                    }
+                    let params = Params { genesis_period: gp, ..Params::default() };
+                    let mut fresh = Node::new(&params, 1);
+                    let tip = w.tip.clone();
+                    let parent = w.node.blockchain.get_block(&tip.previous_block_hash).cloned();
+                    if let Some(pb) = parent {
+                        let mut pb = pb;
+                        pb.in_longest_chain = false; // as after deserialisation from the wire
+                        let _ = pb.upgrade_block_to_block_type(saito_core::core::consensus::block::BlockType::Full, &w.node.storage, false).await;
+                        let _ = fresh.add_block(pb).await;
+                    }
+                    let mut tip = tip;
+                    tip.in_longest_chain = false;
+                    let r0 = fresh.add_block(tip).await;
+                    if r0 != AddClass::OnChain {
+                        continue;
+                    }
+                    w.node = fresh;
+                }
                 if first == "original-first" {
                     let r = futures_catch(AssertUnwindSafe(w.node.add_block(original.clone()))).await;
                     if r != Ok(AddClass::OnChain) {
@@ -203,6 +238,10 @@ async fn main() {
                         if *edit == "none" || *edit == "zero-merkle-root-field" {
                             // a zeroed root field is refilled by Block::generate: same block
                             let want = if first == "original-first" { AddClass::Exists } else { AddClass::OnChain };
+                            if first == "bootstrapped-node" && c != want {
+                                // the bootstrapped node may legitimately refuse (e.g. golden tickets): not judged
+                                summary.count("bootstrapped_refused_original", edit);
+                            } else
                             if c != want {
                                 summary.oracle_failure(case_no, &format!("unedited block: {:?}, expected {:?}", c, want), &desc);
                             }
